@@ -124,5 +124,13 @@ func judgeC07(e *Env, c *hsCase, o hsObs) []hsVerdict {
 func init() {
 	Register("c07", hssrvMode(judgeC07, "c07"))
 	Register("c03", hssrvMode(judgeC03, "c03"))
-	Register("c10", hssrvMode(judgeC10, "c10"))
+	Register("c10", func(e *Env) error {
+		if err := hssrvMode(judgeC10, "c10")(e); err != nil {
+			return err
+		}
+		if e.Replay != "" {
+			return nil
+		}
+		return c10BuilderCases(e)
+	})
 }
